@@ -449,18 +449,42 @@ def new_trace(ctx, world):
             elif e.kind == "except":
                 seq.append("except")
         if "except" in seq:
-            # exceptional exit: must not assign an absolute value; a balancing -1 is allowed
-            if "abs" in seq or "?" in seq:
+            # exceptional exit: the handler must not assign an absolute value; a balancing -1 is allowed
+            inside = seq[seq.index("except") + 1 :]
+            if "abs" in inside or "?" in inside:
                 bad = seq
             continue
-        if seq == ["+1", "yield-top", "-1"]:
-            good_paths += 1
+    # normal paths, on the evaluated body (attribute state is tracked, so `self.top = self.top + 1`,
+    # `t = self.top + 1; self.top = t; yield t`, try/finally ... all have the same effect sequence)
+    r_, sy_, m_, fn_, sc_ = eval_function(world, TR, "TraceStack.new_trace")
+    selfs = sy_[selfn]
+    top0 = lambda t: t.op == "attr" and t.name == "top" and t.obj is selfs
+    evs = []
+    for e in sc_.effects:
+        cond = False
+        while e.op == "when":
+            e, cond = e.eff, True
+        if e.op == "setattr" and e.store.obj is selfs and e.store.idx.value == "top":
+            evs.append(("set", e.store.val, cond))
+        elif e.op == "yield":
+            evs.append(("yield", e.x, cond))
         else:
-            bad = seq
-    if bad is None and good_paths >= 1:
+            for y in walk(e):
+                if y.op == "yield":
+                    evs.append(("yield", y.x, True))
+    good_seq = False
+    if len(evs) == 3 and [k for k, _, _ in evs] == ["set", "yield", "set"] and not any(c for _, _, c in evs):
+        v1, y, v2 = evs[0][1], evs[1][1], evs[2][1]
+        one = lambda t: t.op == "const" and type(t.value) is int and t.value == 1
+        inc = v1.op == "bin" and v1.opname == "Add" and ((top0(v1.l) and one(v1.r)) or (top0(v1.r) and one(v1.l)))
+        yld = y is v1 or same(y, v1)
+        dec = (v2.op == "bin" and v2.opname == "Sub" and (v2.l is v1 or same(v2.l, v1)) and one(v2.r)) or top0(v2)
+        good_seq = bool(inc and yld and dec)
+    if bad is None and good_seq:
         ctx.ob("A12.bal", "new_trace: +1 / yield top / -1 on every normal path", True, loc, sample="['+1','yield-top','-1']")
     else:
-        ctx.fail("A12.bal", "new_trace:balance", f"{q}.new_trace:balance", loc, f"new_trace does not perform exactly `top += 1; yield top; top -= 1` (found {bad})", "nested differentiation (ids of inner traces must be strictly larger than enclosing ones) / a failed differentiation followed by a nested one")
+        found = bad if bad is not None else [(k, str(v)[:40], "conditional" if c else "") for k, v, c in evs]
+        ctx.fail("A12.bal", "new_trace:balance", f"{q}.new_trace:balance", loc, f"new_trace does not perform exactly `top += 1; yield top; top -= 1` (found {found})", "nested differentiation (ids of inner traces must be strictly larger than enclosing ones) / a failed differentiation followed by a nested one")
     # no other writer of .top anywhere in the package (besides __init__)
     n_w = 0
     for mod in world.repo.mods.values():
@@ -585,6 +609,11 @@ def _use_ok(world, mod, rd, tainted):
             return p.args.index(rd) == 1, "a non-trace argument of a Box constructor"
         return False, f"an argument of {norm_text(p.func)}"
     if isinstance(p, ast.BinOp):
+        other = p.right if p.left is rd else p.left
+        f_ = _enclosing_def(rd)
+        cls_ = getattr(f_, "_parent", None) if f_ is not None else None
+        if isinstance(p.op, (ast.Add, ast.Sub)) and isinstance(other, ast.Constant) and type(other.value) is int and other.value == 1 and getattr(f_, "name", None) == "new_trace" and isinstance(cls_, ast.ClassDef) and cls_.name == "TraceStack":
+            return True, ""  # the +-1 update of the counter written out inside new_trace: its exact sequence is decided by A12.bal
         return False, "an operand of arithmetic"
     if isinstance(p, ast.Subscript):
         return False, "an index / key"
@@ -680,6 +709,57 @@ def global_effects(ctx, world, thread=False):
                     r = world.repo.resolve_expr(mod, d.func if isinstance(d, ast.Call) else d)
                     if r is not None and r.qual in ("functools.lru_cache", "functools.cache", "functools.cached_property"):
                         ctx.fail("A11.state", f"{fq}:cache", f"{fq}|cache-decorator", loc_of(mod, d), f"{fq} is memoised ({r.qual}): results depend on call history (and arrays/boxes are cached by identity)", "the same function differentiated twice with an exception in between")
+    # state captured from an enclosing function scope and written by a nested function outlives the nested
+    # function's call: a per-call function returned by a factory (nary_f of unary_to_nary, a vjp closure, ...) that
+    # stores into / grows such a variable makes a later call (or a deferred evaluation) observe an earlier call
+    n_cap = 0
+    for mod in core_mods:
+        for fq, fnode in mod.functions():
+            outer = _enclosing_def(fnode)
+            if outer is None:
+                continue
+            own_locals = _own_locals(fnode)
+            body = [fnode.body] if isinstance(fnode, ast.Lambda) else fnode.body
+            for st in body:
+                for x in ast.walk(st):
+                    if _enclosing_def(x) is not fnode:
+                        continue
+                    tgt = how = None
+                    if isinstance(x, (ast.Assign, ast.AugAssign)):
+                        for t in x.targets if isinstance(x, ast.Assign) else [x.target]:
+                            b = t
+                            while isinstance(b, (ast.Subscript, ast.Attribute)):
+                                b = b.value
+                            if isinstance(t, ast.Subscript) and isinstance(b, ast.Name) and b.id not in own_locals:
+                                tgt, how = b.id, "item store"
+                    elif isinstance(x, ast.Call) and isinstance(x.func, ast.Attribute) and x.func.attr in MUTATORS and isinstance(x.func.value, ast.Name) and x.func.value.id not in own_locals:
+                        if not (x.func.attr == "add" and len(x.args) != 1):  # VSpace.add(a, b) is arithmetic, set.add(e) mutates
+                            tgt, how = x.func.value.id, f".{x.func.attr}()"
+                    elif isinstance(x, ast.Nonlocal):
+                        tgt, how = x.names[0], "nonlocal rebinding"
+                    if tgt is None:
+                        continue
+                    owner = outer
+                    while owner is not None and tgt not in _own_locals(owner):
+                        owner = _enclosing_def(owner)
+                    if owner is None:
+                        continue  # a module-level object: decided above
+                    if not _escapes_upto(fnode, owner):
+                        continue  # a local helper only called during the owner's own activation: per-call state
+                    n_cap += 1
+                    inst = f"{fq}:{tgt}"
+                    if fq.startswith("autograd.core.deprecated_"):
+                        ctx.ob("A11.registries", inst, True, loc_of(mod, x), nontrivial=False)
+                        continue
+                    ctx.fail(
+                        "A11.state",
+                        inst,
+                        f"{fq}|captured-state|{tgt}",
+                        loc_of(mod, x),
+                        f"{fq} writes ({how}) into `{tgt}`, a variable of the enclosing function {getattr(owner, 'name', '<lambda>')}: the state is shared by every call of the returned function and survives between calls: `{norm_text(x)[:70]}`",
+                        "two calls of the same derivative function with different arguments, the first result evaluated (or failing) after the second call",
+                    )
+    ctx.ob("A11.state", "no nested function writes state captured from its factory's scope", True, "autograd/*", nontrivial=True)
     ctx.ob("A11.state", "no global writer outside the registration API and the trace counter", True, "autograd/*", nontrivial=True)
     # singletons: module-level instances of repo classes whose methods store attributes
     n_single = 0
@@ -734,6 +814,51 @@ def global_effects(ctx, world, thread=False):
                         "two threads; thread A runs a nested differentiation; thread B's trace exits between A's outer entry and inner entry: A's inner trace gets the id of its outer trace",
                     )
     ctx.floor("A11 module-level singletons with mutating methods", n_single, 1)
+
+
+def _escapes_upto(fnode, owner):
+    """does the nested function (or one of the functions between it and `owner`) outlive an activation of
+    `owner`?  A def that is only ever *called* by name inside its parent does not; a lambda, a decorated def, or
+    a def whose name is returned / passed on / stored does."""
+    f = fnode
+    while f is not None and f is not owner:
+        parent = _enclosing_def(f)
+        if parent is None:
+            return True
+        if isinstance(f, ast.Lambda) or f.decorator_list:
+            return True
+        for x in ast.walk(parent):
+            if isinstance(x, ast.Name) and x.id == f.name and isinstance(x.ctx, ast.Load) and _enclosing_def(x) is not None:
+                p_ = getattr(x, "_parent", None)
+                if not (isinstance(p_, ast.Call) and p_.func is x):
+                    return True
+        f = parent
+    return False
+
+
+def _own_locals(fnode):
+    """parameters and names bound by the function's own statements (not by nested functions)"""
+    names = set()
+    a = fnode.args
+    for p_ in a.posonlyargs + a.args + a.kwonlyargs:
+        names.add(p_.arg)
+    if a.vararg:
+        names.add(a.vararg.arg)
+    if a.kwarg:
+        names.add(a.kwarg.arg)
+    body = [fnode.body] if isinstance(fnode, ast.Lambda) else fnode.body
+    for st in body:
+        for x in ast.walk(st):
+            if _enclosing_def(x) is not fnode:
+                continue
+            if isinstance(x, ast.Name) and isinstance(x.ctx, ast.Store):
+                names.add(x.id)
+            elif isinstance(x, (ast.FunctionDef, ast.ClassDef)):
+                names.add(x.name)
+    for x in ast.walk(fnode):
+        if isinstance(x, (ast.FunctionDef, ast.ClassDef)) and _enclosing_def(x) is fnode:
+            names.add(x.name)
+    return names
 
 
 def _slots_of(world, cref):
